@@ -1057,3 +1057,94 @@ class RegistryGetTable(PyContract):
                  z3.Implies(self.ordered, z3.And(ret.has(self.t_dict), ret.has(self.t_ddict),
                                                  ret.val(self.t_dict) == z3.Const('_DICT_INSERTION_ORDERED_REGISTRY_ENTRY', Ref),
                                                  ret.val(self.t_ddict) == z3.Const('_DEFAULTDICT_INSERTION_ORDERED_REGISTRY_ENTRY', Ref))))]
+
+
+# ======================================================================================================================
+# C18: typing.is_namedtuple_class against the specification predicate NT that the engine twin IsNamedTupleClassImpl is proved
+# against as well (ocv/contracts/twins.py) - twin agreement is then a corollary, for every class.
+#
+# Vocabulary (A-ATTR: attribute lookup on the class is deterministic and has no side effects; a lookup either yields a
+# value or fails with AttributeError - lookups that raise something else are the known finding C18.*_twin_agrees):
+#   nt_is_type(c)            isinstance(c, type)            / PyType_Check
+#   nt_tuple_subclass(c)     issubclass(c, tuple)           / Py_TPFLAGS_TUPLE_SUBCLASS
+#   nt_has(c, name)          the attribute exists
+#   nt_attr(c, name)         its value
+#   nt_exact_tuple(v), nt_exact_str(v), nt_callable(v); py_len / py_item of an exact tuple
+
+from ..twinspec import (NT, names_distinct, nt_attr, nt_callable, nt_exact_str, nt_exact_tuple, nt_has, nt_is_type, nt_item,  # noqa: E402
+                        nt_len, nt_name, nt_tuple_subclass)
+
+
+@pycontract
+class IsNamedTupleClassPy(PyContract):
+    module = 'optree/typing.py'
+    function = 'is_namedtuple_class'
+
+    def setup(self, eng, st, fn):
+        st.env.vars['cls'] = z3.Const('cls', Ref)
+        st.facts.append(z3.Not(nt_callable(PYNONE)))
+        st.facts.append(z3.Not(nt_exact_tuple(PYNONE)))
+        st.facts.append(names_distinct())
+
+    def global_name(self, eng, st, name):
+        if name in ('type', 'tuple', 'str'):
+            return BuiltinV(name)
+        if name in ('getattr', 'issubclass', 'callable', 'all', 'any'):
+            return BuiltinV(name)
+        return None
+
+    def isinstance(self, eng, st, obj, cls):
+        if isinstance(cls, BuiltinV) and cls.name == 'type':
+            return nt_is_type(obj)
+        if isinstance(cls, BuiltinV) and cls.name in ('tuple', 'str') and is_z3(obj):
+            # isinstance is weaker than the exact-type test: exact implies instance, not conversely
+            inst = z3.Function('nt_isinstance_' + cls.name, Ref, Bool)(obj)
+            st.facts.append(z3.Implies({'tuple': nt_exact_tuple, 'str': nt_exact_str}[cls.name](obj), inst))
+            return inst
+        return None
+
+    def attribute(self, eng, st, base, attr):
+        # cls._fields after the getattr test succeeded: the same lookup (A-ATTR)
+        if is_z3(base) and base.sort() == Ref:
+            return nt_attr(base, nt_name(attr))
+        return None
+
+    def to_seq(self, eng, st, v):
+        if is_z3(v) and v.sort() == Ref:
+            st.facts.append(nt_len(v) >= 0)
+            return SeqV(nt_len(v), lambda i, v=v: nt_item(v, i))
+        return None
+
+    def call(self, eng, st, f, args, kwargs, n, stars):
+        if not isinstance(f, BuiltinV):
+            return None
+        if f.name == 'issubclass' and isinstance(args[1], BuiltinV) and args[1].name == 'tuple':
+            return [(st, nt_tuple_subclass(args[0]))]
+        if f.name == 'getattr' and len(args) == 3 and isinstance(n.args[1], ast.Constant) and isinstance(n.args[1].value, str):
+            nm = nt_name(n.args[1].value)
+            return [(st, z3.If(nt_has(args[0], nm), nt_attr(args[0], nm), args[2]))]
+        if f.name == 'type' and len(args) == 1:
+            return [(st, StructV('typeof', (('of', args[0]),)))]
+        if f.name == 'callable':
+            return [(st, nt_callable(args[0]))]
+        if f.name == 'all':
+            seq = eng.to_seq(st, args[0])
+            i = z3.Int('i!all')
+            return [(st, z3.ForAll([i], z3.Implies(z3.And(0 <= i, i < seq.len), eng.truth(st, seq.at(i)))))]
+        if f.name == 'any':
+            seq = eng.to_seq(st, args[0])
+            i = z3.Int('i!any')
+            return [(st, z3.Exists([i], z3.And(0 <= i, i < seq.len, eng.truth(st, seq.at(i)))))]
+        return None
+
+    def identical(self, eng, a, b):
+        for x, y in ((a, b), (b, a)):
+            if isinstance(x, StructV) and x.kind == 'typeof' and isinstance(y, BuiltinV):
+                if y.name == 'tuple':
+                    return nt_exact_tuple(x.get('of'))
+                if y.name == 'str':
+                    return nt_exact_str(x.get('of'))
+        return None
+
+    def post(self, eng, st, entry, ret):
+        return [('result-is-the-namedtuple-class-predicate', eng.truth(st, ret) == NT(z3.Const('cls', Ref)))]
